@@ -605,6 +605,7 @@ func simSlot(key []byte) int {
 // ---------------------------------------------------------------- the cluster
 
 type simLog struct {
+	conn   int // serial number of the connection the command arrived on (per cluster)
 	asking bool
 	cmd    string // canonical tokens of the request array
 	result string // "exec" | "moved" | "ask" | "down" | "local"
@@ -627,6 +628,7 @@ type simNode struct {
 	migrate map[int]int // slot -> target node (this node is the source)
 	importF map[int]int // slot -> source node (this node is the target)
 	nodesServed int
+	gone    bool // not part of the cluster any more (not listed by CLUSTER NODES)
 }
 
 type simCluster struct {
@@ -639,6 +641,8 @@ type simCluster struct {
 	wg     sync.WaitGroup
 	closed bool
 	onAsk  func() // called (under mu) when a node emits ASK
+	connSeq int
+	nodesDelayMs int // CLUSTER NODES answers this late (the text is the layout at the time the command arrived)
 }
 
 func newSimCluster(n int) *simCluster {
@@ -697,9 +701,11 @@ func (nd *simNode) acceptLoop(ln net.Listener) {
 		}
 		nd.accepts++
 		nd.conns[c] = struct{}{}
+		nd.cl.connSeq++
+		serial := nd.cl.connSeq
 		nd.cl.mu.Unlock()
 		nd.cl.wg.Add(1)
-		go nd.serve(c)
+		go nd.serve(c, serial)
 	}
 }
 
@@ -758,6 +764,9 @@ func (cl *simCluster) setLayout(ranges [][3]int) { // lo, hi, node
 func (cl *simCluster) clusterNodesText(me int) string {
 	var b strings.Builder
 	for _, nd := range cl.nodes {
+		if nd.gone {
+			continue
+		}
 		flags := "master"
 		masterID := "-"
 		if nd.master >= 0 {
@@ -810,7 +819,7 @@ func (cl *simCluster) clusterNodesText(me int) string {
 	return b.String()
 }
 
-func (nd *simNode) serve(c net.Conn) {
+func (nd *simNode) serve(c net.Conn, serial int) {
 	defer nd.cl.wg.Done()
 	defer func() {
 		nd.cl.mu.Lock()
@@ -826,14 +835,17 @@ func (nd *simNode) serve(c net.Conn) {
 		if err != nil {
 			return
 		}
-		reply := nd.handle(v, &asking)
+		reply := nd.handle(v, &asking, serial)
 		nd.cl.mu.Lock()
 		d, silent := nd.delayMs, nd.silent
+		if nd.cl.nodesDelayMs > 0 && v.t == '*' && len(v.a) > 0 && asciiLowerB(v.a[0].s) == "cluster" {
+			d = nd.cl.nodesDelayMs
+		}
 		nd.cl.mu.Unlock()
 		if silent {
 			continue
 		}
-		if d > 0 && br.Buffered() == 0 {
+		if d > 0 && (br.Buffered() == 0 || d >= 20) {
 			time.Sleep(time.Duration(d) * time.Millisecond)
 		}
 		reply.encode2(bw)
@@ -851,13 +863,13 @@ func (v *wv) encode2(w *bufio.Writer) {
 	w.Write(b.Bytes())
 }
 
-func (nd *simNode) handle(v *wv, asking *bool) *wv {
+func (nd *simNode) handle(v *wv, asking *bool, serial int) *wv {
 	cl := nd.cl
 	cl.mu.Lock()
 	defer cl.mu.Unlock()
 	wasAsking := *asking
 	*asking = false
-	entry := simLog{asking: wasAsking, cmd: v.String(), result: "local"}
+	entry := simLog{conn: serial, asking: wasAsking, cmd: v.String(), result: "local"}
 	defer func() { nd.log = append(nd.log, entry) }()
 	if v.t != '*' || v.null || len(v.a) == 0 {
 		return wErr("ERR protocol error")
@@ -1129,12 +1141,20 @@ func (sc *simClient) recv(timeout time.Duration) (*wv, error) {
 func (sc *simClient) close() { sc.c.Close() }
 
 // failover: node idx crashes; a replica with the same data takes over its slots under a new address.
-func (cl *simCluster) failover(idx int) *simNode {
+func (cl *simCluster) failover(idx int) *simNode { return cl.replaceNode(idx, false) }
+
+// replaceNode: keepID = the same cluster node comes back under a new address (restart with another port)
+func (cl *simCluster) replaceNode(idx int, keepID bool) *simNode {
 	old := cl.nodes[idx]
 	old.stop()
 	cl.mu.Lock()
 	nd := &simNode{cl: cl, idx: len(cl.nodes), master: -1, conns: map[net.Conn]struct{}{}, migrate: old.migrate, importF: old.importF, store: old.store}
 	nd.id = fmt.Sprintf("%040x", 0xabc000+nd.idx)
+	if keepID {
+		nd.id = old.id
+		old.id = fmt.Sprintf("%040x", 0xdead000+old.idx)
+		old.gone = true
+	}
 	old.migrate, old.importF, old.store = map[int]int{}, map[int]int{}, map[string]*sval{}
 	cl.nodes = append(cl.nodes, nd)
 	for s := range cl.owner {
